@@ -437,6 +437,8 @@ func C14(ctx *core.Ctx) {
 	errorKindFidelity(ctx, r, "C14.R10")
 	ctx.Rule("C14.R11", "every accepted connection / received message is served by a goroutine of its own with its own value: goroutines started in a loop capture per-iteration variables only", 1)
 	c03LoopCapture(ctx, r, "C14.R11")
+	ctx.Rule("C14.R12", "every request frame on a connection is answered: the buffering frame decoder of a serving loop is built once per connection, not per request (read-ahead of a pipelined request would be discarded with it)", 1)
+	decoderPerLoop(ctx, r, "C14.R12")
 	// handler closures run concurrently, once per message: they must not write storage captured from the enclosing function
 	hs := httpHandlers(r)
 	for h := range msgHandlers(r) {
